@@ -87,6 +87,21 @@ def make_plane(name, seed):
         q = p0.rescale(2)
         qm = np.asarray(q.mask)
         return q, dict(info, shape=tuple(qm.shape), amp=float(np.asarray(q.amplitude)), opd=float(np.asarray(q.opd)), mask=qm != 0)
+    if name == 'seg_used_rescaled':
+        # segmented plane, resampled, then used: it applies what its attributes say now, segment by segment
+        p0 = lentil.Pupil(amplitude=c(a['A3']), opd=c(a['O3']), mask=c(a['seg']), pixelscale=DX, focal_length=1.0)
+        q = p0.rescale(2)
+        qm = np.asarray(q.mask)
+        return q, dict(info, ptype='pupil', z=1.0, ps=DX / 2, shape=tuple(qm.shape[-2:]), amp=np.array(q.amplitude, copy=True),
+                       opd=np.array(q.opd, copy=True), mask=qm.sum(0) > 0)
+    if name == 'opd_zero_sum':
+        # an OPD whose samples cancel exactly (antisymmetric about the centre) is still an OPD
+        rr_, cc_ = np.meshgrid(np.arange(S[0]) - (S[0] - 1) / 2, np.arange(S[1]) - (S[1] - 1) / 2, indexing='ij')
+        oz = (rr_ * 0.25 + cc_ * 0.125) * WL / 4
+        return lentil.Plane(amplitude=np.ones(S), opd=oz.copy()), dict(info, amp=np.ones(S), opd=oz)
+    if name == 'px_scalar_other':
+        # a plane without any array (an attenuator with a piston) still has a sampling that must agree with the wavefront's
+        return lentil.Plane(amplitude=0.5, opd=WL / 16, pixelscale=2 * DX), dict(info, shape=(), ps=2 * DX, amp=0.5, opd=WL / 16)
     if name == 'mask_opd':
         return (lentil.Plane(amplitude=0.5, opd=c(a['O1']), mask=c(a['M1'])),
                 dict(info, amp=0.5, opd=a['O1'], mask=a['M1'] != 0))
@@ -108,7 +123,7 @@ def make_plane(name, seed):
     raise ValueError(name)
 
 
-PLANES = ['plane0', 'pupil', 'pupil2', 'seg', 'seg_fit', 'seg3_fit', 'seg3_fit_b', 'seg3_fit_c', 'seg_scalar', 'pupil_fit', 'mask_scalar', 'mask_scalar_used_rescaled', 'mask_opd', 'amp_mask', 'opd_only',
+PLANES = ['plane0', 'pupil', 'pupil2', 'seg', 'seg_fit', 'seg3_fit', 'seg3_fit_b', 'seg3_fit_c', 'seg_scalar', 'pupil_fit', 'mask_scalar', 'mask_scalar_used_rescaled', 'seg_used_rescaled', 'opd_zero_sum', 'px_scalar_other', 'mask_opd', 'amp_mask', 'opd_only',
           'small', 'tilt', 'image', 'px_other', 'px_tiny']
 PROPS = {'prop': dict(shape=(3, 4), prop_shape=None, oversample=2), 'prop_win': dict(shape=(5, 5), prop_shape=(2, 3), oversample=1),
          'prop_small': dict(shape=(6, 6), prop_shape=(2, 2), oversample=1)}
@@ -156,7 +171,7 @@ def enabled(st):
         return []
     ev = []
     for p in PLANES:
-        pt = {'pupil': 'pupil', 'pupil2': 'pupil', 'seg': 'pupil', 'seg_fit': 'pupil', 'seg3_fit': 'pupil', 'seg3_fit_b': 'pupil', 'seg3_fit_c': 'pupil', 'seg_scalar': 'pupil', 'pupil_fit': 'pupil', 'tilt': 'tilt',
+        pt = {'pupil': 'pupil', 'pupil2': 'pupil', 'seg': 'pupil', 'seg_fit': 'pupil', 'seg_used_rescaled': 'pupil', 'seg3_fit': 'pupil', 'seg3_fit_b': 'pupil', 'seg3_fit_c': 'pupil', 'seg_scalar': 'pupil', 'pupil_fit': 'pupil', 'tilt': 'tilt',
               'image': 'image'}.get(p, 'none')
         if (m['ptype'], pt) in MUL_TABLE:
             ev.append(p)
